@@ -56,7 +56,7 @@ pub fn plan(id: &str) -> Option<Plan> {
             engines: vec![
                 Engine { name: "sim", salt: 1, quick: 3000, thorough: 120_000, serial: false, run: Box::new(|s, t| c01::scenario("C01", s, t)) },
                 Engine { name: "stress", salt: 2, quick: 2, thorough: 12, serial: true, run: Box::new(|s, t| c01::stress(s, t.pick(20_000, 100_000))) },
-                Engine { name: "stress-threads", salt: 3, quick: 3, thorough: 24, serial: true, run: Box::new(|s, t| c01::stress_threads(s, t.pick(1500, 10_000))) },
+                Engine { name: "stress-threads", salt: 3, quick: 3, thorough: 16, serial: true, run: Box::new(|s, t| c01::stress_threads(s, t.pick(1500, 5_000))) },
             ],
             extra: None,
         },
